@@ -1,6 +1,6 @@
 """Generic correspondence run: real code (in worker processes) vs Lean model (driver), plus the
 direct property oracle evaluated on the real code's observations."""
-import time, collections
+import time, collections, os
 from . import lib
 
 
@@ -25,13 +25,54 @@ def first_diff(a, b):
     return None
 
 
+def shrink_ops(r, mod_name, run_fn, driver_kind, mask_model, oracle_props, budget=150):
+    """greedy minimisation of an op-list case: drop operations (never `new`/scope ops) while the
+    case still fails (model/implementation difference or oracle failure)"""
+    import importlib
+    mod = importlib.import_module(mod_name)
+    case = r["case"]
+    keep_kinds = {"new", "cluster", "index", "exit", "dump"}
+
+    def attempt(ops):
+        c2 = dict(case, ops=ops)
+        out = getattr(mod, run_fn)(c2)
+        out["case"], out["idx"] = c2, r["idx"]
+        model = lib.split_cases(lib.run_driver(driver_kind, out["lines"]))
+        model = model[0] if model else []
+        if mask_model:
+            model = [mask_model(l) for l in model]
+        d = first_diff(out["obs"], model)
+        bad = d is not None or any(f[0] in oracle_props for f in out.get("fails", []))
+        return bad, out, model, d
+
+    ops = list(case["ops"])
+    best = None
+    i = len(ops) - 1
+    while i >= 0 and budget > 0:
+        if ops[i][0] not in keep_kinds:
+            budget -= 1
+            trial = ops[:i] + ops[i + 1:]
+            try:
+                bad, out, model, d = attempt(trial)
+            except Exception:
+                bad = False
+            if bad:
+                ops, best = trial, (out, model, d)
+        i -= 1
+    return best
+
+
 def correspondence(rep, *, prop, mod_name, driver_kind, ncases, extra=(), nontrivial=None,
                    oracle_props=None, run_fn="run_impl", index_base=0, sample_fmt=None,
                    shrink=None, max_report=3, mask_model=None, post=None):
     """Runs `ncases` generated cases. Returns aggregated stats. Reports violations into `rep`."""
     oracle_props = oracle_props or {prop}
     t0 = time.time()
-    results = lib.pmap(_worker, [(mod_name, run_fn, rep.seed, index_base + i, tuple(extra)) for i in range(ncases)])
+    indices = [index_base + i for i in range(ncases)]
+    only = os.environ.get("VERIF_ONLY_INDEX")
+    if only is not None and only != "":
+        indices = [int(x) for x in only.split(",")]          # ./check --replay
+    results = lib.pmap(_worker, [(mod_name, run_fn, rep.seed, i, tuple(extra)) for i in indices])
     errs = [r for r in results if "harness_error" in r]
     if errs:
         raise lib.Infra("harness error in worker: " + errs[0]["harness_error"] + "\n" + errs[0].get("tb", ""))
@@ -72,21 +113,24 @@ def correspondence(rep, *, prop, mod_name, driver_kind, ncases, extra=(), nontri
         if (d is not None or fails) and reported < max_report:
             reported += 1
             rr, dd = r, d
-            if shrink is not None:
-                try:
-                    rr, model, dd = shrink(r, model, d, driver_kind, oracle_props)
-                    fails = [f for f in rr.get("fails", []) if f[0] in oracle_props]
-                except Exception as e:          # shrinking is best-effort
+            if isinstance(r.get("case"), dict) and "ops" in r["case"]:
+                try:                            # shrinking is best-effort
+                    best = shrink_ops(r, mod_name, run_fn, driver_kind, mask_model, oracle_props)
+                    if best is not None:
+                        rr, model, dd = best
+                        rr["shrunk_from_ops"] = len(r["case"]["ops"])
+                        fails = [f for f in rr.get("fails", []) if f[0] in oracle_props]
+                except Exception:
                     rr, dd = r, d
             replay = {
-                "kind": "spec-violation" if fails else "correspondence",
+                "kind": "spec-violation" if fails else "correspondence", "tier": rep.tier,
                 "model": driver_kind, "case_index": rr["idx"], "case": rr["case"],
                 "protocol_lines": rr["lines"][: (dd + 40) if dd is not None else 400],
                 "first_diff": None if dd is None else {
                     "obs_index": dd,
                     "impl": rr["obs"][dd] if dd < len(rr["obs"]) else None,
                     "model": model[dd] if dd < len(model) else None},
-                "oracle_failures": [list(f) for f in fails[:5]],
+                "oracle_failures": [list(f) for f in fails[:5]], "shrunk_from_ops": rr.get("shrunk_from_ops"),
                 "match": rr.get("match", {}),
             }
             if fails:
